@@ -58,6 +58,9 @@ func UseMockKeys() bool {
 	return useMockKeys
 }
 
+// maxCachedKeys is the number of Host-AS keys a Fetcher caches at most.
+const maxCachedKeys = 1024
+
 type Fetcher struct {
 	dc   daemon.Connector
 	haks map[addr.IA]drkey.HostASKey
@@ -93,6 +96,12 @@ func (f *Fetcher) FetchHostASKey(ctx context.Context, meta drkey.HostASMeta) (
 			hak, err = FetchHostASKey(ctx, f.dc, meta)
 		}
 		if err == nil {
+			if !ok && len(f.haks) >= maxCachedKeys {
+				// Keys are fetched, and cached, before the packet they are fetched
+				// for is authenticated: packets that claim ever new ISD-ASes must
+				// not make the cache grow without bound.
+				clear(f.haks)
+			}
 			f.haks[hak.DstIA] = hak
 			mtrcs := fetcherMtrcs.Load()
 			if !ok {
